@@ -558,6 +558,11 @@ func runCase(cs poolsim.Case, coqWanted bool) (coqOut string, failOut *failure, 
 	r := poolsim.NewRunner(w, report)
 	st := stats{}
 	e := &env{w: w, r: r, st: st, report: report}
+	// a third of the histories read the pool from inside the reorg / pool-change notifications
+	if cs.Seed%3 == 0 {
+		r.Listen()
+		st["histories-with-listener-reads"]++
+	}
 	nodeByIdx := func(i int) *chaingen.Node {
 		if i < 0 || i >= len(t.Nodes) {
 			return nil
@@ -689,7 +694,7 @@ func runCase(cs poolsim.Case, coqWanted bool) (coqOut string, failOut *failure, 
 					st["update-skipped"]++
 					continue
 				}
-				set, metas = append(set[:1:1], set[0].DeepCopy()), append(metas[:1:1], metas[0])
+				set, metas = append(set[:1:1], poolsim.CopyV2(set[0])), append(metas[:1:1], metas[0])
 			default:
 				set, metas = e.buildSet(g, fromN, toN, kind)
 				if len(set) == 0 {
